@@ -193,6 +193,9 @@ def run(ctx):
     ctx.rule("R7", "a loss report is applied up to its end: in may_loss / may_lost_from the walk over map entries below `end` leaves the "
                    "loop only after handing the rest of the range to may_lost_from (an acknowledged entry inside the range is skipped, "
                    "not a reason to stop)")
+    ctx.rule("R8", "an acknowledgement treats every unacknowledged colour alike: the colour tests of ack_rcvd compare with Recved (and with "
+                   "Pending in its debug assertions) only — whether the rest of a partly acknowledged segment is split off must not "
+                   "depend on that segment being Flighting rather than Lost")
     ctx.rule("R6", "write keeps the bytes it announces: extend_to and push_back run together; is_all_rcvd is `data.is_empty()`")
     names = variant_names(prog, SB + "::Color") or {}
     # ---------------------------------------------------------------- R1
@@ -413,6 +416,26 @@ def run(ctx):
                    "from the `entry.offset < end` arm (bb%d) the function can return without going round the loop again or passing may_lost_from (return blocks reached: %s) — the part of "
                    "the lost range behind that entry keeps its Flighting colour: reported lost, never offered again, and the stream "
                    "can never complete" % (tgt, leak[:6] or "none"))
+    # ---------------------------------------------------------------- R8
+    ar = ctx.anchor("R8", SB + "::BufMap::ack_rcvd")
+    if ar:
+        cols = {}
+        for i, t in ar.calls():
+            m = re.search(r"sndbuf::Color as core::cmp::PartialEq>::(eq|ne)$|cmp::PartialEq::(eq|ne)$", callee(t))
+            if m and len(t["args"]) == 2:
+                col = promoted_colour(prog, ar, t["args"][1]) or promoted_colour(prog, ar, t["args"][0])
+                if col:
+                    cols.setdefault(col, []).append(t["line"])
+        for (i, j, p, rv, line) in ar.assigns():
+            if rv[0] == "disc" and "sndbuf::Color" in ar.local_ty(rv[1][0]):
+                cols.setdefault("<match on colour>", []).append(line)
+        ctx.floor("R8", "colour comparisons in ack_rcvd", sum(len(v) for v in cols.values()), 4)
+        bad = {c: l for c, l in cols.items() if c not in ("Recved", "Pending")}
+        ctx.ob("R8", "%s|colour tests distinguish only Recved" % ar.short, not bad, ar.where(),
+               "colours ack_rcvd compares with: %s; others than Recved/Pending: %s — if the split at the end of the acknowledged range is "
+               "made only for a Flighting segment, the unacknowledged tail of a Lost segment is recoloured Recved together with the "
+               "acknowledged part: bytes the peer never confirmed are dropped from the buffer and never resent"
+               % ({c: len(l) for c, l in sorted(cols.items())}, sorted(bad) or "none"))
     # ---------------------------------------------------------------- R6
     wr = ctx.anchor("R6", SB + "::SendBuf::write")
     if wr:
